@@ -28,7 +28,7 @@ func init() {
 	register(&c17{base{
 		id:          "C17",
 		level:       lvlExploration,
-		rule:        "each case draws a file set, creates a reference archive (absolute clean paths, 1 goroutine, cwd = an unrelated directory) and then re-creates it in fresh copies of the directory under every variation: repetition (many runs, many recovery blocks), longer files already present under the output names (what an earlier Create with other parameters leaves behind), goroutine counts {1,2,3,7,16,64}, permutations of the input list (PAR2), current directory in {set directory, its parent, unrelated}, path spellings {relative, ./x, absolute, absolute with //, /./ and x/../, parent-relative with redundant separators} for the inputs and for the index path, through the library and through the built par binary. The set of written files (names relative to the set directory and bytes) must equal the reference. A key is (format, variation, set shape)",
+		rule:        "each case draws a file set, creates a reference archive (absolute clean paths, 1 goroutine, cwd = an unrelated directory) and then re-creates it in fresh copies of the directory under every variation: repetition (many runs, many recovery blocks), longer files already present under the output names (what an earlier Create with other parameters leaves behind), goroutine counts {1,2,3,7,16,64}, permutations of the input list (PAR2; some sets have 48-72 files so that file IDs agreeing in their last bytes occur), a file listed twice with the repeat spelled in different ways, current directory in {set directory, its parent, unrelated}, path spellings {relative, ./x, absolute, absolute with //, /./ and x/../, parent-relative with redundant separators} for the inputs and for the index path, through the library and through the built par binary. The set of written files (names relative to the set directory and bytes) must equal the reference. A key is (format, variation, set shape)",
 		assumptions: commonAssumptions,
 		opts:        core.WorkerOpts{CrashIsViolation: true, WallSeconds: 2400},
 	}})
@@ -129,6 +129,15 @@ func (c *c17) Run(cs core.Case) core.Result {
 	if p.Fmt == "par2" {
 		set = genP2Set(rng, 6, []string{"random", "random", "period", "zeros"}, false)
 		set.Blocks = []int{1, 3, 7, 15, 15, 20}[rng.Intn(6)]
+		if p.Seed%5 == 0 {
+			// dozens of small files: IDs agreeing in their last byte(s) become likely,
+			// so the ordering of the recovery set is really exercised
+			set.Files = nil
+			for i := 0; i < 48+rng.Intn(24); i++ {
+				set.Files = append(set.Files, scen.File{Name: fmt.Sprintf("m%02d.bin", i), Data: scen.GenData(rng, "random", 1+rng.Intn(3*set.SliceSize), set.SliceSize)})
+			}
+			set.Blocks = 2
+		}
 	} else {
 		fs := genP1Files(rng, 1+rng.Intn(5))
 		for i := range fs {
@@ -288,6 +297,54 @@ func (c *c17) Run(cs core.Case) core.Result {
 			r.Count("cli_runs", 1)
 		}
 		r.Key("%s|%s|f=%d|b=%d", p.Fmt, v.name, len(set.Files), set.Blocks)
+	}
+	// An input list that mentions a file twice: whatever Create does with it, the
+	// result must not depend on how the repeat is spelled.
+	if p.Fmt == "par2" && len(set.Files) >= 2 {
+		runRepeat := func(tag, spellRepeat, cwd string) (map[string]string, error) {
+			top := filepath.Join(root, tag)
+			setDir := filepath.Join(top, "the set")
+			set.Materialize(setDir)
+			cwdPath := map[string]string{"set": setDir, "other": other}[cwd]
+			var paths []string
+			for _, f := range set.Files {
+				paths = append(paths, filepath.Join(setDir, filepath.FromSlash(f.Name)))
+			}
+			first := filepath.FromSlash(set.Files[0].Name)
+			switch spellRepeat {
+			case "same":
+				paths = append(paths, paths[0])
+			case "dot":
+				paths = append(paths, setDir+"/./"+first)
+			case "rel":
+				paths = append(paths, first)
+			case "dslash":
+				paths = append(paths, setDir+"//"+first)
+			}
+			os.Chdir(cwdPath)
+			var cerr error
+			pi := core.Protect(func() {
+				cerr = par2.Create(filepath.Join(setDir, "rep.par2"), paths, par2.CreateOptions{SliceByteCount: set.SliceSize, NumParityShards: 2, NumGoroutines: 2})
+			})
+			os.Chdir(origWd)
+			if pi != nil {
+				return nil, fmt.Errorf("panic: %s", pi.Msg)
+			}
+			cf := createdFiles(setDir, inputs)
+			os.RemoveAll(top)
+			return cf, cerr
+		}
+		refRep, refErr := runRepeat("rep-ref", "same", "other")
+		for _, sp := range []struct{ spell, cwd string }{{"dot", "other"}, {"dslash", "other"}, {"rel", "set"}, {"same", "set"}} {
+			got, err := runRepeat("rep-"+sp.spell+"-"+sp.cwd, sp.spell, sp.cwd)
+			if (err == nil) != (refErr == nil) {
+				r.Violate("create-output-varies|repeated-input-spelling", "a file listed twice: spelled identically Create gives err=%v, with the repeat spelled %q (cwd=%s) err=%v", refErr, sp.spell, sp.cwd, err)
+			} else if d := scen.DiffSnap(refRep, got); len(d) > 0 {
+				r.Violate("create-output-varies|repeated-input-spelling", "a file listed twice: output differs between an identically spelled repeat and the repeat spelled %q (cwd=%s): %v", sp.spell, sp.cwd, d)
+			}
+			r.Count("variant_runs", 1)
+			r.Key("%s|repeat-%s-%s|f=%d", p.Fmt, sp.spell, sp.cwd, len(set.Files))
+		}
 	}
 	ss := setSummary(set)
 	ss["format"] = p.Fmt
